@@ -70,6 +70,15 @@ def obligations(ctx):
     for (rsz, asz) in ((3, 1), (2, 2), (1, 3), (2, 0)):
         for (nn, avx) in ((4, 0), (8, 1)):
             obs.append(ag.api_ob(ag.tables(ctx), 2, nn, 0, avx, rsz, asz, inplace=True, tag="idft-inplace/"))
+    # same pointer, different strides, a single input limb (only limb 0 is shared; the other output limbs are zero extension at another stride):
+    # every single-vector operation in place on limb 0
+    for (op, var) in ((1, 0), (2, 0), (5, 0), (6, 0)):
+        for (rsz, so) in ((3, (3, 0, 0)), (1, (0, 2, 0)), (2, (2, 0, 0))):
+            for nn in (2, 4):
+                if op in (5, 6):
+                    obs.append(g.vec_ob(op, var, nn, rsz, 1, 0, so, avx=(rsz + nn) % 2, alias=4, pmode=1, tag="limb0-shared/", timeout=600))
+                else:
+                    obs.append(g.vec_ob(op, var, nn, rsz, 1, 0, so, avx=(rsz + nn) % 2, alias=4, tag="limb0-shared/"))
     # pointwise products with r==a or r==b (reim, reim4 and interleaved-complex vectors, reference and FMA kernels): the aliased call yields the
     # same exact-semantics polynomial as the definition (shared analysis with C17)
     from vf.props import c17
